@@ -88,6 +88,12 @@ mut("c19_cc_stale_on_reload_error", "C19", "freshness", [(CC,
  "                            path = path.display(),\n                        );\n                        return None;\n                    }\n                };\n                let tz = czone.tz.clone();\n                zones.zones[i] = czone;",
  "                            path = path.display(),\n                        );\n                        return Some(zones.zones[i].tz.clone());\n                    }\n                };\n                let tz = czone.tz.clone();\n                zones.zones[i] = czone;")])
 
+mut("c19_zi_walk_lists_non_tzif", "C19", "completeness|freshness|false_negative", [(ZI,
+ "            if !is_possibly_tzif(&buf) {", "            if false && !is_possibly_tzif(&buf) {")])
+mut("c19_zi_walk_unwraps_non_utf8_name", "C19", "panic|open_failed", [(ZI,
+ "                    Err(err) => {\n                        seterr(&path, err);\n                        continue;\n                    }",
+ "                    Err(err) => {\n                        panic!(\"unexpected file name: {err}\");\n                    }")])
+
 # ---- C20 -------------------------------------------------------------
 mut("c20_clone_tzif_no_increment", "C20", "premature_free|double_free", [(TZ,
  "                    unsafe {\n                        Arc::increment_strong_count(ptr.cast::<TzifOwned>());\n                    }\n                    Repr { ptr: self.ptr }",
